@@ -249,7 +249,20 @@ Fixpoint run_from (gs : list graph) (es : list engine) (qs : list query) (c : ca
   | [] => []
   | q :: r => let '(t, c') := step gs es q c in t :: run_from gs es r c'
   end.
+
+(** the cache after a history (observed by the correspondence: key set and histograms) *)
+Fixpoint end_cache (gs : list graph) (es : list engine) (qs : list query) (c : cache) : cache :=
+  match qs with
+  | [] => c
+  | q :: r => end_cache gs es r (snd (step gs es q c))
+  end.
 End WithVF2.
 
+Definition tblabel (b : blabel) : tok := tlist (topt tN) b.
+Definition tcolour (c : colour) : tok := L [tblabel (fst c); tset tblabel (snd c)].
+Definition thist (h : hist) : tok := tset (tpair tcolour tN) h.
+Definition tcache (c : cache) : tok :=
+  tset (fun kh : ckey * hist => L [tnat (fst (fst kh)); tlist tN (snd (fst kh)); thist (snd kh)]) c.
+
 Definition run (gs : list graph) (es : list engine) (qs : list query) : tok :=
-  L (run_from has_mono (monos_g true) gs es qs []).
+  L (run_from has_mono (monos_g true) gs es qs [] ++ [tcache (end_cache has_mono (monos_g true) gs es qs [])]).
